@@ -1506,7 +1506,11 @@ int bufr_apply_tables2node
 
             if (ddo->change_ref_value != 0)
                {
-               cb->encoding.reference *= 10^ddo->change_ref_value;
+               {
+               int k;
+               for (k = 0; k < ddo->change_ref_value; k++)
+                  cb->encoding.reference *= 10;
+               }
                cb->encoding.ref_nbits = bufr_value_nbits( cb->encoding.reference );
                if (debug)
                   {
